@@ -163,12 +163,30 @@ def model_op(op):
     if name in ('update_self', 'ior_self', 'iter_hold'):
         return ('noop',)
     if name == 'update_bad':
+        if len(op) > 2 and op[2] == 'mapping_raises':
+            return ('update_bad', list(dict(dpairs(op[1])).items()))      # a mapping has each key once
         return ('update_bad', dpairs(op[1]))
     if name in ('eq', 'ne'):
         if len(op) > 2 and op[2].replace('_reflected', '') in NOT_A_MAPPING:
             return (name, [(('not', 'a', 'mapping'), 0)])      # compares unequal whatever the contents
         return (name, list(dict(dpairs(op[1])).items()))
     return (name,)
+
+
+class FailingMapping:
+    """keys()/__getitem__ source (no items()) whose last key cannot be read."""
+
+    def __init__(self, pairs):
+        self._d = dict(pairs)
+        self._bad = ('unreadable', 'key')
+
+    def keys(self):
+        return list(self._d) + [self._bad]
+
+    def __getitem__(self, k):
+        if k == self._bad:
+            raise ValueError('backend failed reading %r' % (k,))
+        return self._d[k]
 
 
 class Ctx:
@@ -317,8 +335,20 @@ def exec_op(c, op, ctx):
             ctx.kept_iterators.append(it)
             return ('ok', None), None
         if name == 'update_bad':
-            c.update(dpairs(op[1]) + [('not-a-pair',)])
-            return ('ok', 'update() accepted a malformed sequence'), None
+            # a source that fails part-way: like dict.update, the pairs produced before the failure are stored
+            good = dpairs(op[1])
+            variant = op[2] if len(op) > 2 else 'malformed'
+            if variant == 'gen_raises':
+                def failing():
+                    for kv in good:
+                        yield kv
+                    raise ValueError('source failed after %d pairs' % len(good))
+                c.update(failing())
+            elif variant == 'mapping_raises':
+                c.update(FailingMapping(good))
+            else:
+                c.update(good + [('not-a-pair',)])
+            return ('ok', 'update() accepted a failing source'), None
         if name == 'update_self':
             c.update(c)
             return ('ok', None), None
